@@ -71,11 +71,11 @@ def entails(facts, goal):
 
 # ---------------------------------------------------------------------------------------------- named temporaries
 class Locals(object):
-    """Single-assignment locals of one function, looked through on demand.
+    """Named temporaries of one function, looked through on demand.
 
-    ``x = <expr>`` (x bound exactly once in the function, not a parameter) lets a later use of ``x`` be read as
-    ``<expr>`` provided the binding dominates the use and no statement in between can change what ``<expr>``
-    denotes:  a re-binding of a name it reads, a store to an attribute path it reads (or to a prefix of one),
+    ``x = <expr>`` (x a local bound only by such plain assignments, not a parameter) lets a later use of ``x`` be
+    read as ``<expr>`` provided this is the only binding of ``x`` reaching the use, ``x`` is bound on every path to
+    it, and no statement in between can change what ``<expr>`` denotes:  a re-binding of a name it reads, a store to an attribute path it reads (or to a prefix of one),
     and -- when ``<expr>`` is more than a plain ``a.b.c`` path, i.e. computed from the *contents* of objects --
     a store into / a method call on an object rooted at one of its names.  Attribute paths are treated as
     fields: stores to different field names do not interfere."""
@@ -112,30 +112,44 @@ class Locals(object):
                 for t in st.targets:
                     if isinstance(t, ast.Name):
                         self._bind.setdefault(t.id, []).append(st)
-        self.single = dict((k, v[0]) for k, v in self._bind.items()
-                           if len(v) == 1 and counts.get(k) == 1 and k not in self.params)
+        # locals bound only by plain ``x = <expr>`` statements (possibly several: one per branch / handler)
+        self.defs = dict((k, v) for k, v in self._bind.items() if counts.get(k) == len(v) and k not in self.params)
+        self.single = dict((k, v[0]) for k, v in self.defs.items() if len(v) == 1)
 
     # -- one step ------------------------------------------------------------------------------------------
-    def value_at(self, name, nodes):
-        """The expression local ``name`` stands for at all of the CFG ``nodes`` (or None)."""
-        st = self.single.get(name)
-        if st is None or name in self.keep:
+    def def_at(self, name, nodes):
+        """The one binding statement of local ``name`` whose value is what ``name`` stands for at all of the CFG
+        ``nodes``: it is the only binding reaching them, ``name`` is bound on every path, and nothing in between
+        changes what the bound expression denotes.  None otherwise."""
+        sts = self.defs.get(name)
+        if not sts or name in self.keep:
             return None
         cfg = self.cfg
-        ids = cfg.nodes_of(st)
-        val = st.value
-        if not ids or isinstance(val, (ast.Lambda, ast.Yield, ast.YieldFrom, ast.Await, ast.NamedExpr)):
+        all_ids = cfg.nodes_of_all(sts)
+        if not all_ids:
             return None
+        found = None
         for n in nodes:
-            if n in ids:
+            if n in all_ids or not cfg.must_pass(all_ids, cfg.entry, n):
                 return None
-            if not cfg.must_pass(ids, cfg.entry, n):
+            reaching = [d for d in sts if n in cfg.reach([m for x in cfg.nodes_of(d) for m in cfg.succ[x]], avoid=all_ids)]
+            if len(reaching) != 1 or (found is not None and reaching[0] is not found):
                 return None
+            found = reaching[0]
+            val = found.value
+            if isinstance(val, (ast.Lambda, ast.Yield, ast.YieldFrom, ast.Await, ast.NamedExpr)):
+                return None
+            ids = cfg.nodes_of(found)
             after = [m for x in ids for m in cfg.succ[x]]
-            mid = (cfg.reach(after, avoid=ids) & cfg.coreach([n], avoid=ids)) - {n}
+            mid = (cfg.reach(after, avoid=all_ids) & cfg.coreach([n], avoid=all_ids)) - {n}
             if self._killed(val, mid):
                 return None
-        return val
+        return found
+
+    def value_at(self, name, nodes):
+        """The expression local ``name`` stands for at all of the CFG ``nodes`` (or None)."""
+        d = self.def_at(name, nodes)
+        return d.value if d is not None else None
 
     def _killed(self, val, mid):
         cfg = self.cfg
@@ -189,10 +203,10 @@ class Locals(object):
             def visit_Name(self_, n):
                 if not isinstance(n.ctx, ast.Load) or (stop is not None and stop(n.id)):
                     return n
-                v = outer.value_at(n.id, nodes)
-                if v is None:
+                st = outer.def_at(n.id, nodes)
+                if st is None:
                     return n
-                st = outer.single[n.id]
+                v = st.value
                 if via is not None and st not in via:
                     via.append(st)
                 ids = [x for x in outer.cfg.nodes_of(st) if outer.cfg.reachable(x)]
